@@ -711,11 +711,13 @@ func (c *Client) shouldSendListChangedNotification(notification string) bool {
 		if caps == nil {
 			return true
 		}
-		// Check RootsV2 first (preferred), then fall back to Roots.
+		// Only RootsV2 configures the roots capability: Capabilities.Roots is
+		// ignored (see [ClientOptions.Capabilities]) and never advertised, so it
+		// must not enable notifications either.
 		if caps.RootsV2 != nil {
 			return caps.RootsV2.ListChanged
 		}
-		return caps.Roots.ListChanged
+		return false
 	default:
 		// Unknown notification, allow by default.
 		return true
